@@ -326,7 +326,8 @@ type Model struct {
 
 func (m *Model) ask(line string) (string, bool) {
 	if m.p == nil || m.p.dead {
-		p, err := startProc(m.exe)
+		// the extracted functions recurse over lists of bytes: give the driver a large stack
+		p, err := startProc("/bin/sh", "-c", `ulimit -s 4000000 2>/dev/null || ulimit -s unlimited 2>/dev/null; exec "$0"`, m.exe)
 		if err != nil {
 			return "cannot start the model driver: " + err.Error(), false
 		}
